@@ -7,7 +7,11 @@ the named function, regenerate Gen/*.lean from the mutated tree, and check that 
 (either the translator refuses the function, or the generated file / the tie theorem no longer compiles).  Finally the pristine
 files are restored and the build must succeed again.
 
-  tie_selftest_hash.py --repo /repo --lean /path/to/lean [--only REGEX] [--work /tmp/tie_selftest_hash]
+  tie_selftest_hash.py --repo /repo --lean /path/to/lean [--only REGEX] [--work /tmp/tie_selftest_hash] [--set original|refactored]
+
+`--set refactored` uses MUTATIONS_REFACTORED instead: one-token mutations of the REFACTORED spellings of `hkdf_expand`,
+`expand_message_xmd`, `hash_to_field_FQ2` and `modular_squareroot_in_FQ2` (the refactorings the tie proofs tolerate); `--repo` must
+then be a tree with those refactorings applied and `--lean` a project whose Gen/ files were generated from it.
 """
 import argparse
 import json
@@ -149,6 +153,39 @@ MUTATIONS = [
     ("msqrt-check", PC, "modular_squareroot_in_FQ2", "candidate_squareroot**2 / value", "candidate_squareroot**2 * value", 0),
 ]
 
+# mutations of the REFACTORED spellings (refactorings/C15-g5-xmd-running-block-and-comprehension, the hash.py part of
+# C16-g5-keygen-hkdf-tidy, the modular_squareroot_in_FQ2 part of C11-g5-g1-sqrt-fq2-root-select): run with `--set refactored` on a
+# tree that has those patches applied, to confirm that the reshaping-tolerant proofs still notice a real change there
+MUTATIONS_REFACTORED = [
+    ("r-expand-ctr", HASH, "hkdf_expand", "bytes([counter])", "bytes([counter - 1])", 0),
+    ("r-expand-range", HASH, "hkdf_expand", "range(1, n + 1)", "range(1, n)", 0),
+    ("r-expand-range0", HASH, "hkdf_expand", "range(1, n + 1)", "range(0, n)", 0),
+    ("r-expand-order", HASH, "hkdf_expand", "t_prev + info +", "info + t_prev +", 0),
+    ("r-expand-noext", HASH, "hkdf_expand", "        okm.extend(t_prev)\n", "        okm = t_prev\n", 0),
+    ("r-expand-32", HASH, "hkdf_expand", "length / 32", "length / 64", 0),
+    ("r-xmd-prev", HASH, "expand_message_xmd", "xor(b_0, b_prev)", "xor(b_0, b_0)", 0),
+    ("r-xmd-stale", HASH, "expand_message_xmd",
+     "        b_prev = hash_function(xor(b_0, b_prev) + i2osp(i, 1) + DST_prime).digest()\n        blocks.append(b_prev)",
+     "        b_new = hash_function(xor(b_0, b_prev) + i2osp(i, 1) + DST_prime).digest()\n        blocks.append(b_new)", 0),
+    ("r-xmd-range", HASH, "expand_message_xmd", "range(2, ell + 1)", "range(2, ell)", 0),
+    ("r-xmd-init", HASH, "expand_message_xmd", "blocks = [b_prev]", "blocks = [b_0]", 0),
+    ("r-xmd-ctr", HASH, "expand_message_xmd", "i2osp(i, 1)", "i2osp(i - 1, 1)", 0),
+    ("r-h2f2-slice", H2C, "hash_to_field_FQ2", "L * (j + i * M + 1)", "L * (j + i * M) + 1", 0),
+    ("r-h2f2-off", H2C, "hash_to_field_FQ2", "(j + i * M) :", "(i + j * M) :", 0),
+    ("r-h2f2-range", H2C, "hash_to_field_FQ2", "for j in range(M)", "for j in range(1)", 0),
+    ("r-h2f2-mod", H2C, "hash_to_field_FQ2", "% field_modulus", "% L", 0),
+    ("r-h2f2-alias", H2C, "hash_to_field_FQ2", "L = HASH_TO_FIELD_L", "L = HASH_TO_FIELD_L - 1", 0),
+    ("r-h2f2-outer", H2C, "hash_to_field_FQ2", "for i in range(count)", "for i in range(1, count)", 0),
+    ("r-msqrt-notin", PC, "modular_squareroot_in_FQ2", "check not in even_roots", "check in even_roots", 0),
+    ("r-msqrt-idx", PC, "modular_squareroot_in_FQ2", "EIGHTH_ROOTS_OF_UNITY[even_roots.index(check)]",
+     "even_roots[even_roots.index(check)]", 0),
+    ("r-msqrt-idx2", PC, "modular_squareroot_in_FQ2", "even_roots.index(check)", "EIGHTH_ROOTS_OF_UNITY.index(check)", 0),
+    ("r-msqrt-step", PC, "modular_squareroot_in_FQ2", "EIGHTH_ROOTS_OF_UNITY[::2]", "EIGHTH_ROOTS_OF_UNITY[:-1]", 0),
+    ("r-msqrt-ret", PC, "modular_squareroot_in_FQ2", "        return root1\n    return root2", "        return root2\n    return root1", 0),
+    ("r-msqrt-cmp", PC, "modular_squareroot_in_FQ2", "root1_im > root2_im or", "root1_im >= root2_im or", 0),
+    ("r-msqrt-neg", PC, "modular_squareroot_in_FQ2", "root2 = -root1", "root2 = root1", 0),
+]
+
 
 def main():
     ap = argparse.ArgumentParser()
@@ -157,13 +194,15 @@ def main():
     ap.add_argument("--work", default="/tmp/tie_selftest_hash")
     ap.add_argument("--only", default=None, help="regex on mutation ids")
     ap.add_argument("--targets", default=",".join(TARGETS))
+    ap.add_argument("--set", default="original", choices=["original", "refactored"],
+                    help="which mutation list: the original spellings (default) or the refactored ones")
     a = ap.parse_args()
     targets = [t for t in a.targets.split(",") if os.path.exists(os.path.join(a.lean, *t.split(".")) + ".lean")]
     gen_dir = os.path.join(a.lean, "PyEcc", "Gen")
     env = dict(os.environ)
     env["PATH"] = "/opt/veriftools/lean/bin:" + env["PATH"]
     results = []
-    muts = [m for m in MUTATIONS if a.only is None or re.search(a.only, m[0])]
+    muts = [m for m in (MUTATIONS if a.set == "original" else MUTATIONS_REFACTORED) if a.only is None or re.search(a.only, m[0])]
     for mid, rel, fn, old, new, occ in muts:
         repo_mut = os.path.join(a.work, "repo_mut")
         shutil.rmtree(repo_mut, ignore_errors=True)
